@@ -699,6 +699,18 @@ var contextFreeForeign = map[string]string{
 	"sdk/codec/types.AnyUnpacker":       "type registry fixed at wiring time (Any resolution)",
 }
 
+// contextFreeMethods: methods that answer from wiring-time constants whatever their receiver (reviewed by name).
+var contextFreeMethods = map[string]string{
+	"GetModuleAddress":               "address derived from the module name / the permission table fixed at wiring time",
+	"GetModuleAddressAndPermissions": "permission table fixed at wiring time",
+	"GetModulePermissions":           "permission table fixed at wiring time",
+	"BlockedAddr":                    "blocked-address set fixed at wiring time",
+	"GetBlockedAddresses":            "blocked-address set fixed at wiring time",
+	"GetAuthority":                   "authority address fixed at wiring time",
+	"Name":                           "store key / module name",
+	"String":                         "rendering of a value",
+}
+
 type foreignCall struct {
 	Fn    *ssa.Function
 	Instr ssa.CallInstruction
@@ -751,7 +763,15 @@ func contextFreeForeignCalls(p *Prog, fns []*ssa.Function) (bad, allowed []forei
 			}
 			rt := shortPkg(recv.Type().String())
 			fc := foreignCall{Fn: fn, Instr: cs.Instr, Loc: loc, Recv: rt, Name: cs.Name}
+			mname := ""
+			if cc.IsInvoke() {
+				mname = cc.Method.Name()
+			} else if cs.Callee != nil {
+				mname = cs.Callee.Name()
+			}
 			if _, ok := contextFreeForeign[rt]; ok {
+				allowed = append(allowed, fc)
+			} else if _, ok := contextFreeMethods[mname]; ok {
 				allowed = append(allowed, fc)
 			} else {
 				bad = append(bad, fc)
